@@ -311,8 +311,10 @@ def pool_map(fn, items, j):
         return list(ex.map(go, items))
 
 
-def cmd_tests(j):
+def cmd_tests(j, only=None):
     muts = json.load(open(os.path.join(ROOT, "mutants.json")))
+    if only:
+        muts = [m for m in muts if os.path.basename(m["file"]) in only]
     # baseline: the unparsed, unmutated files must pass
     t0 = time.time()
     res_path = os.path.join(ROOT, "tests.json")
@@ -418,7 +420,7 @@ if __name__ == "__main__":
     if cmd == "gen":
         cmd_gen()
     elif cmd == "tests":
-        cmd_tests(j)
+        cmd_tests(j, args[args.index("--only") + 1].split(",") if "--only" in args else None)
     elif cmd == "checks":
         limit = int(args[args.index("--limit") + 1]) if "--limit" in args else 10 ** 9
         only = args[args.index("--only") + 1].split(",") if "--only" in args else None
